@@ -17,7 +17,7 @@ SHARDS = {"quick": 16, "thorough": 16}
 TIMEOUT = {"quick": 1500, "thorough": 10800}
 RULE = (
     "per configuration (mode, batch size, number of plates, chains/chunks, publication-order seed) the script is first run "
-    "crash-free against the pipeline stub; then EVERY failpoint hit (each executed line of the script via sys.monitoring, "
+    "crash-free against the pipeline stub; then EVERY failpoint hit (for simulations of more than 2000 hits: every mutation failpoint and every third line failpoint) (each executed line of the script via sys.monitoring, "
     "before/after each mkdir inside makedirs, between the unlinks of rmtree, after each directory / file the stub "
     "publishes) is turned into a kill, the script is rerun (deleting exactly the directory it names as incomplete) until "
     "the simulation is complete, and the launch log, deletion log and final tree are checked off-line against the "
@@ -73,10 +73,13 @@ class Sim:
         self.deletions = []
         self.line_events = True
         self.max_launches = 10**9
+        self.tags = None
 
     # ---- failpoints
     def failpoint(self, tag):
         self.hits += 1
+        if self.tags is not None:
+            self.tags.append(tag)
         if self.crash_at is not None and self.hits == self.crash_at:
             self.crash_tag = tag
             raise Crash(tag)
@@ -428,18 +431,22 @@ def reference(drv, root, cfg):
     # records two more batches than the faulty runs are required to complete
     extra = 0 if cfg["mode"] == "retrospective" else 2
     completed_target = None
+    hit_tags = []
     for i in range(n_inv + extra):
         sim.hits = 0
         sim.crash_at = None
+        sim.tags = [] if i < n_inv else None
         status, info = drv.invoke(sim)
         events.append((status, info))
         if i < n_inv:
             total_hits.append(sim.hits)
+            hit_tags.append(sim.tags)
+        sim.tags = None
         if status != "exit0":
             break
         if i == n_inv - 1:
             completed_target = sorted(sim.completed_steps())
-    ref = {"events": events, "hits": total_hits, "launches": sim.launches, "steps": {}, "tree": dict(tree(sim.outdir, orchestration_only=True)), "completed": completed_target or [], "completed_ext": sorted(sim.completed_steps()), "deletions": sim.deletions}
+    ref = {"events": events, "hits": total_hits, "launches": sim.launches, "steps": {}, "tree": dict(tree(sim.outdir, orchestration_only=True)), "completed": completed_target or [], "completed_ext": sorted(sim.completed_steps()), "deletions": sim.deletions, "hit_tags": hit_tags}
     for l in sim.launches:
         ref["steps"].setdefault(l["step"], l)
     return ref
@@ -506,18 +513,19 @@ def judge(rec, cfg, ref, sim, events, label, w):
 def configurations(tier, rng):
     cfgs = []
     if tier == "quick":
-        retro = [(2, 1), (3, 2), (5, 1), (5, 2), (5, 3), (4, 4), (6, 4)]
+        # (13, 1) and (13, 12): two-digit iteration / plate directory names (numeric, not lexicographic, order)
+        retro = [(2, 1), (3, 2), (5, 1), (5, 2), (5, 3), (4, 4), (6, 4), (13, 1), (13, 12)]
         pro = [(1, 2), (2, 2), (3, 2), (2, 3)]
         seeds = [0]
     else:
-        retro = [(p, b) for p in (2, 3, 4, 5, 6, 7) for b in (1, 2, 3, 4) if not (p == 2 and b > 2)]
-        pro = [(b, k) for b in (1, 2, 3, 4) for k in (2, 3)]
+        retro = [(p, b) for p in (2, 3, 4, 5, 6, 7) for b in (1, 2, 3, 4) if not (p == 2 and b > 2)] + [(13, 1), (13, 12), (14, 3)]
+        pro = [(b, k) for b in (1, 2, 3, 4) for k in (2, 3)] + [(11, 2)]
         seeds = [0, 1, 2]
     for os_ in seeds:
         for p, b in retro:
             cfgs.append({"mode": "retrospective", "plates": p, "batch": b, "n_chains": 1 + (p + b + os_) % 2, "n_chunks": 1 + (p + os_) % 2, "order_seed": os_})
         for b, k in pro:
-            cfgs.append({"mode": "prospective", "plates": 6, "batch": b, "invocations": k, "n_chains": 1 + (b + os_) % 2, "n_chunks": 1 + (k + os_) % 2, "order_seed": os_})
+            cfgs.append({"mode": "prospective", "plates": max(6, b + 2), "batch": b, "invocations": k, "n_chains": 1 + (b + os_) % 2, "n_chunks": 1 + (k + os_) % 2, "order_seed": os_})
     return cfgs
 
 
@@ -546,6 +554,11 @@ def run_shard(rec, tier, seed, shard, nshards):
                 max_inv = 6 * target + 12
                 n_inv = len(ref["hits"])
                 points = [(i, k) for i in range(n_inv) for k in range(1, ref["hits"][i] + 1)]
+                if sum(ref["hits"]) > 2000:
+                    # long simulations: every failpoint at a filesystem mutation, every third line failpoint (the
+                    # lines between two mutations leave the same directory tree behind)
+                    points = [(i, k) for (i, k) in points if not ref["hit_tags"][i][k - 1].startswith("line:") or k % 3 == 0]
+                    rec.count("configurations_with_thinned_line_failpoints")
                 mine = points[shard::nshards]
                 seen_states = set()
                 seen_double = set()
